@@ -6,8 +6,8 @@ dataflow region of interest, the emitted op sequence in the canonical form of co
     node first, then the outputs of every retained node in emission order;
   * an instruction is {"op": [name, static args...], "ins": [regs], "nout": k} or
     {"cond": reg, "others": [regs], "cases": [{"body": [...], "outs": [regs]}], "nout": k};
-  * pure plumbing nodes (LoadConst, Tag, MakeTuple, UnpackTuple) that nothing retained depends on
-    are dropped from DataflowBlocks (dead-code elimination; the CFG branch value of a block is
+  * `unpack_tuple(make_tuple(a, b, ..))` forwards a, b, ..; pure plumbing nodes (LoadConst, Tag,
+    MakeTuple, UnpackTuple) that nothing retained depends on are dropped from DataflowBlocks (dead-code elimination; the CFG branch value of a block is
     not a root).  Regions nested in Conditionals / TailLoops are kept verbatim.
 
 stdin: {"source": <python module text>, "funcs": [names to compile]}
@@ -93,6 +93,7 @@ def region(m, parent, dce, skip_out0):
         raise Unsupported("region without Input/Output")
     inp, outp = ch[0], ch[1]
     nodes = []
+    alias, made = {}, {}
     for c in ch[2:]:
         t = type(m[c].op).__name__
         if t in ("Const", "FuncDefn", "FuncDecl", "AliasDefn", "AliasDecl"):
@@ -104,12 +105,20 @@ def region(m, parent, dce, skip_out0):
             if len(ps) != 1:
                 raise Unsupported(f"in-port {i} of node {c.idx} has {len(ps)} sources")
             srcs.append((ps[0].node.idx, ps[0].offset))
+        srcs = [alias.get(x, x) for x in srcs]
+        if kind == "UnpackTuple" and srcs[0][0] in made and len(made[srcs[0][0]]) == n_out:
+            # unpack_tuple(make_tuple(a, b, ..)) is the identity on a, b, ..: forward the wires
+            for j in range(n_out):
+                alias[(c.idx, j)] = made[srcs[0][0]][j]
+            continue
+        if kind == "MakeTuple":
+            made[c.idx] = list(srcs)
         nodes.append({"node": c, "tokens": tokens, "srcs": srcs, "nout": n_out, "kind": kind})
     n_region_out = m.num_in_ports(outp)
     out_srcs = []
     for i in range(n_region_out):
         ps = list(m.linked_ports(outp.inp(i)))
-        out_srcs.append((ps[0].node.idx, ps[0].offset) if len(ps) == 1 else None)
+        out_srcs.append(alias.get((ps[0].node.idx, ps[0].offset), (ps[0].node.idx, ps[0].offset)) if len(ps) == 1 else None)
     keep = {x["node"].idx for x in nodes}
     if dce:
         need = {x["node"].idx for x in nodes if x["kind"] not in PURE}
